@@ -675,10 +675,11 @@ def oracle0(c, o):
     if not c["ansi"] and "\x1b" in text:
         return "plain-page-emits-escape"
     # the USAGE block with the line breaks of the wrapping taken out; the rest of the page
-    k0 = lines.index("USAGE") if "USAGE" in lines else -1
+    # (on a very narrow page the heading itself is wrapped, and cut in its markup: 'USAGE</b' / '>')
+    k0 = min([i for i, l in enumerate(lines) if l.startswith("USAGE")] or [-1])
     k1 = lines.index("", k0 + 1) if k0 >= 0 and "" in lines[k0 + 1:] else len(lines)
     usage = "".join(l.strip(" ") for l in lines[k0 + 1:k1]) if k0 >= 0 else ""
-    rest = lines[:max(k0, 0)] + lines[k1:]
+    rest = lines[:k0] + lines[k1:] if k0 >= 0 else lines
     short_re = lambda s: r"(^|[ (\[])-%s($|[ )\]\xa0])" % re.escape(s)
 
     def value_names_shown(opts):
